@@ -83,7 +83,8 @@ BootOf(o) == {[idx |-> d.idx, st |-> d.st, n |-> d.n] : d \in ToSet(o.boot)}
 P(r)    == [n |-> r.n, cons |-> ConsOf(r.obs), recs |-> RecsOf(r.obs)]
 \* what has to stand still for a run to count as stagnant (funds and record contents are left out: the shared data is
 \* re-created with a new nonce in every round of a run that does not converge)
-Abs(r)  == <<r.obs.notary, r.obs.alpha, r.obs.notaryX, r.obs.alphaX, ConsOf(r.obs), RecsOf(r.obs), BootOf(r.obs), r.obs.nnsNames,
+BootAbs(o) == {[idx |-> d.idx, st |-> d.st] : d \in ToSet(o.boot)}      \* without the number of records (see e2e_test.go)
+Abs(r)  == <<r.obs.notary, r.obs.alpha, r.obs.notaryX, r.obs.alphaX, ConsOf(r.obs), RecsOf(r.obs), BootAbs(r.obs), r.obs.nnsNames,
              r.obs.cand, r.obs.gas.proxy > 0, r.obs.neo.cmt > 0>>
 
 Reached(r) ==
@@ -148,8 +149,11 @@ JudgeE2E(r) ==
       \* refusals for lack of GAS count as (pending) progress only while the first deployment is being saved for out of
       \* the block rewards, i.e. before the NNS contract exists
       progress == st.abs # Abs(r) \/ (r.fw > 0 /\ r.obs.contracts = <<>>)
-      chg      == IF progress THEN r.h ELSE st.chg
-      fair     == (IF progress THEN TRUE ELSE st.fair) /\ LineFair(r, st.absent)
+      \* the stagnation window starts at the last progress or at the last line before which some member that has to take
+      \* part was not running (statuses only change on recorded lines)
+      lfair    == LineFair(r, st.absent)
+      chg      == IF progress \/ ~lfair \/ ~st.fair THEN r.h ELSE st.chg
+      fair     == lfair
       t        == Tags(r)
   IN  /\ Flag(UniqueContractsP(p, "alphabet"), "C13", "UniqueContracts", r, t)
       /\ Flag(RecordsFunctionalP(p), "C13", "RecordsFunctional", r, t)
@@ -157,6 +161,7 @@ JudgeE2E(r) ==
       /\ Flag(Closed(Reached(r), KSys, r.n), "DRIFT", "StagesOrdered", r, t)
       /\ Flag(Len(r.obs.notary) \in {0, r.n} /\ Len(r.obs.alpha) \in {0, r.n} /\ r.obs.notaryX = 0 /\ r.obs.alphaX = 0,
               "DRIFT", "RolesAllOrNothing", r, t)
+      /\ Flag(\A b \in BootOf(r.obs) : b.n <= 1, "DRIFT", "BootSingleRecord", r, t)   \* stale records are replaced (setRecord)
       /\ Flag(\A c \in ConsOf(r.obs) : c.upd = 0 /\ c.ok /\ (c.sys = "alphabet" \/ c.dep = 0), "DRIFT", "FreshContracts", r, t)
       /\ IF r.act = "end"
          THEN IF r.done
